@@ -747,7 +747,9 @@ class Analysis:
         ordn = collections.Counter()
 
         def key(kind, c):
-            base = '%s|%s|%s' % (fn.name, kind, short(c.callee))
+            # name the consumer by the container it draws from (stable when another consumer is added to the function);
+            # the ordinal only separates consumers of the same container through the same callee
+            base = '%s|%s|%s%s' % (fn.name, kind, short(c.callee), self._src_label(fn, c))
             ordn[base] += 1
             return '%s#%d' % (base, ordn[base])
 
@@ -867,6 +869,18 @@ class Analysis:
             if sig and not H.search(sig['output']):
                 self.rep.violation('R9a', '%s|opaque-return' % fn.name, where='%s:%d' % (fn.file, fn.line), fn=fn.name,
                                    detail='returns a hash-ordered iterator behind an opaque type (%s)' % sig['output'][:80])
+
+    def _src_label(self, fn, c):
+        if not c.args or not is_place(c.args[0]):
+            return ''
+        o = mir.provenance(fn, c.args[0], follow_all_call_args=True)
+        fields = sorted({fl for (of, fl) in o.fields if not fl.isdigit() and of and not of.startswith('std::')})
+        if fields:
+            return '@' + fields[0]
+        names = sorted({fn.varnames[l] for l in o.locals if l in fn.varnames and (htyped(fn, l) or HASHC.search(fn.ty.get(l, '')))})
+        if names:
+            return '@' + names[0]
+        return ''
 
     def map_closures_preserve_key(self, fn, hl):
         """every `map` adaptor between the hash iterator and `hl` passes field 0 of its (key, value) item through"""
